@@ -1024,26 +1024,35 @@ class mulgrid(object):
                     n3cols = [c for c in list(col.neighbour) if n3 in c.node]
                     swapcons, swapnbrs = [], []
                     for con in list(col.connection):
+                        oldnames = tuple([c.name for c in con.column])
                         if con.column[0] in n3cols:
                             con.column[1] = col2
-                            swapcons.append(con)
+                            swapcons.append((con, oldnames))
                             swapnbrs.append(con.column[0])
                         elif con.column[1] in n3cols:
                             con.column[0] = col2
-                            swapcons.append(con)
+                            swapcons.append((con, oldnames))
                             swapnbrs.append(con.column[1])
-                    for con in swapcons:
+                    for con, oldnames in swapcons:
                         col.connection.remove(con)
                         col2.connection.add(con)
+                        # connection is now found under the name of the new column:
+                        del self.connection[oldnames]
+                        self.connection[tuple([c.name for c in con.column])] = con
                     for c in swapnbrs:
                         col.neighbour.remove(c)
                         c.neighbour.remove(col)
                         col2.neighbour.add(c)
                         c.neighbour.add(col2)
                     del col.node[i[3]]
+                    n3.column.remove(col)
                     col.centre = col.centroid
+                    col.get_area()
                     self.add_column(col2)
+                    col2.num_layers = col.num_layers
                     self.add_connection(connection([col, col2]))
+                    col.neighbour.add(col2)
+                    col2.neighbour.add(col)
                     self.setup_block_name_index()
                     self.setup_block_connection_name_index()
                     return True
